@@ -120,13 +120,13 @@ func genC12(seed uint64, tier string) *plan.Plan {
 		// afterwards is delivered at most once and in order like everything else, Stop still returns, and
 		// nothing of the first handler is left. A stream of its own keeps older plans as they were.
 		r2 := rand.New(rand.NewPCG(seed, 0xc12d))
-		if r2.IntN(4) == 0 {
+		if r2.IntN(3) == 0 {
 			c := r2.IntN(len(pl.Ops))
 			if op := pl.Ops[c]; op.K == "client" && op.B >= 2 {
 				pl.Cfg["silent_client"] = int64(op.T + 1)
 				pl.Cfg["silent_after"] = int64(r2.IntN(int(op.B) - 1))
 				pl.Cfg["silent_s"] = []int64{1800, 1801, 1900, 3600, 7000}[r2.IntN(5)]
-				if r2.IntN(3) == 0 {
+				if r2.IntN(2) == 0 {
 					pl.Cfg["silent_exact"] = 1
 				}
 				if r2.IntN(3) > 0 {
